@@ -211,3 +211,112 @@ pub fn run() -> i32 {
     }
     0
 }
+
+// ---- `vh execcb`: scheduling from inside the executor's own callback; `stream N`: a StreamSource with N items ready ----
+
+struct ReadyFut(usize);
+impl Future for ReadyFut {
+    type Output = usize;
+    fn poll(self: Pin<&mut Self>, _: &mut Context<'_>) -> Poll<usize> {
+        Poll::Ready(self.0)
+    }
+}
+
+/// a stream whose items are all ready at once: `left` items, then the end
+struct ReadyStream {
+    next: usize,
+    total: usize,
+}
+impl futures_core::Stream for ReadyStream {
+    type Item = usize;
+    fn poll_next(mut self: Pin<&mut Self>, _: &mut Context<'_>) -> Poll<Option<usize>> {
+        if self.next < self.total {
+            self.next += 1;
+            Poll::Ready(Some(self.next - 1))
+        } else {
+            Poll::Ready(None)
+        }
+    }
+}
+
+pub fn run_cb() -> i32 {
+    use std::cell::RefCell;
+    use std::rc::Rc;
+    let stdin = std::io::stdin();
+    let out = std::io::stdout();
+    let mut out = std::io::BufWriter::new(out.lock());
+    std::panic::set_hook(Box::new(|_| {}));
+    for line in stdin.lock().lines() {
+        let line = line.unwrap();
+        let w: Vec<&str> = line.split_whitespace().collect();
+        if w.is_empty() {
+            continue;
+        }
+        match w[0] {
+            // chain N: task 0 is scheduled from outside; the executor's callback schedules task r+1 when r is delivered
+            "chain" => {
+                let n: usize = w[1].parse().unwrap();
+                let res = std::panic::catch_unwind(|| {
+                    let mut el: EventLoop<'static, ()> = EventLoop::try_new().unwrap();
+                    let (exec, scheduler) = executor::<usize>().unwrap();
+                    let delivered = Rc::new(RefCell::new(Vec::new()));
+                    let d2 = delivered.clone();
+                    let s2 = scheduler.clone();
+                    el.handle()
+                        .insert_source(exec, move |r, _, _| {
+                            d2.borrow_mut().push(r);
+                            if r < n {
+                                s2.schedule(ReadyFut(r + 1)).unwrap();
+                            }
+                        })
+                        .map_err(|e| e.error)
+                        .unwrap();
+                    scheduler.schedule(ReadyFut(0)).unwrap();
+                    for _ in 0..(n + 3) {
+                        el.dispatch(Some(Duration::ZERO), &mut ()).unwrap();
+                    }
+                    let v = delivered.borrow().clone();
+                    v
+                });
+                match res {
+                    Ok(v) => writeln!(out, "chain {} delivered=[{}] panicked=0", n, v.iter().map(|x| x.to_string()).collect::<Vec<_>>().join(",")).unwrap(),
+                    Err(_) => writeln!(out, "chain {} delivered=[] panicked=1", n).unwrap(),
+                }
+            }
+            // stream N D: a StreamSource over a stream with N items ready at once, D dispatches: how many items came, in
+            // order?, how many `None`s, is the source still in the loop
+            "stream" => {
+                let n: usize = w[1].parse().unwrap();
+                let nd: usize = w[2].parse().unwrap();
+                let mut el: EventLoop<'static, ()> = EventLoop::try_new().unwrap();
+                let src = calloop::stream::StreamSource::new(ReadyStream { next: 0, total: n }).unwrap();
+                let got = Rc::new(RefCell::new((0usize, true, 0usize)));
+                let g2 = got.clone();
+                let token = el
+                    .handle()
+                    .insert_source(src, move |item, _, _| {
+                        let mut g = g2.borrow_mut();
+                        match item {
+                            Some(v) => {
+                                if v != g.0 {
+                                    g.1 = false;
+                                }
+                                g.0 += 1;
+                            }
+                            None => g.2 += 1,
+                        }
+                    })
+                    .map_err(|e| e.error)
+                    .unwrap();
+                for _ in 0..nd {
+                    el.dispatch(Some(Duration::ZERO), &mut ()).unwrap();
+                }
+                let gone = el.handle().update(&token).is_err();
+                let g = got.borrow();
+                writeln!(out, "stream {} items={} inorder={} nones={} gone={}", n, g.0, g.1 as u8, g.2, gone as u8).unwrap();
+            }
+            _ => {}
+        }
+    }
+    0
+}
